@@ -407,6 +407,26 @@ func c11collisions(want int, short bool) [][]string {
 	return out
 }
 
+// the in-range levels: one row of the counter table each (Debug = _minLevel .. Fatal = _maxLevel)
+var c11levels = []int8{-1, 0, 1, 2, 3, 4, 5}
+
+// one message per bucket 0..4095, in bucket order (generation only: the model computes the buckets itself)
+func c11bucketMsgs() []string {
+	out := make([]string, 4096)
+	have := 0
+	for i := 0; have < len(out) && i < 2000000; i++ {
+		m := fmt.Sprintf("b%d", i)
+		if b := c11fnv(m) % 4096; out[b] == "" {
+			out[b] = m
+			have++
+		}
+	}
+	if have != len(out) {
+		panic("c11bucketMsgs: could not cover every bucket")
+	}
+	return out
+}
+
 func lg(core int, lvl int8, msg string, tn int64) c11op {
 	return c11op{kind: 0, core: core, lvl: lvl, msg: msg, tn: tn, en: true}
 }
@@ -430,12 +450,69 @@ func c11directed(c *Ctx, coll [][]string) {
 			}
 		}
 	}
+	// the same boundaries on every level row (Debug .. Fatal), windows opened well before, just before,
+	// across and after the Unix epoch: no row of the counter table may start in a different state
+	for _, l := range c11levels {
+		for _, T := range []int64{-1000 * sec, -3 * sec, -sec - 1, 1000 * sec} {
+			for _, nm := range [][2]int{{1, 0}, {2, 3}, {0, 2}} {
+				for _, d := range []int64{-1, 0, 1} {
+					ops := []c11op{lg(0, l, "x", T), lg(0, l, "x", T), lg(0, l, "x", T+sec+d), lg(0, l, "x", T+sec+d), lg(0, l, "x", T+2*sec+d-1), lg(0, l, "x", T+2*sec+d), lg(0, l, "x", T+2*sec+2*d)}
+					c11emitSeq(c, c11cfg{nm[0], nm[1], sec}, ops, "boundary-lvl")
+				}
+			}
+		}
+	}
 	// pre-epoch stamps one tick apart and more (each must open its own window)
 	// (the first one is the Coq witness Proofs.orig_witness_ops of C11_sequential_orig_refuted)
 	c11emitSeq(c, c11cfg{1, 0, sec}, []c11op{lg(0, 0, "x", -10*sec), lg(0, 0, "x", -5*sec)}, "preepoch")
 	c11emitSeq(c, c11cfg{1, 0, sec}, []c11op{lg(0, 0, "x", -10*sec), lg(0, 0, "x", -5*sec), lg(0, 0, "x", -5*sec+1), lg(0, 0, "x", -1)}, "preepoch")
 	c11emitSeq(c, c11cfg{2, 2, sec}, rep(12, func(i int) c11op { return lg(0, 1, "neg", -100*sec+int64(i)*sec/2) }), "preepoch")
 	c11emitSeq(c, c11cfg{1, 0, 10}, []c11op{lg(0, 0, "x", math.MinInt64), lg(0, 0, "x", math.MinInt64), lg(0, 0, "x", math.MinInt64+9), lg(0, 0, "x", math.MinInt64+10)}, "preepoch")
+	// pre-epoch windows on every level row, through With-derived cores (shared budget) and a second
+	// sampler (fresh counter table): several entries per window, windows two ticks apart, starting in
+	// 1875 / 1960 / a few ticks before the epoch and running across it
+	for _, l := range c11levels {
+		for _, base := range []int64{-3000000000 * sec, -315619200 * sec, -7 * sec, -2*sec - 1} {
+			for _, nm := range [][2]int{{2, 3}, {1, 0}, {0, 2}} {
+				ops := []c11op{{kind: 1, parent: 0}, {kind: 2}, {kind: 1, parent: 2}}
+				for w := int64(0); w < 4; w++ {
+					for k := int64(1); k <= 9; k++ {
+						ops = append(ops, lg(int(k%2), l, "same message", base+w*2*sec+k*int64(time.Millisecond)))
+						if k%3 == 0 {
+							ops = append(ops, lg(2+int(k%2), l, "same message", base+w*2*sec+k*int64(time.Millisecond)))
+						}
+					}
+				}
+				c11emitSeq(c, c11cfg{nm[0], nm[1], sec}, ops, "preepoch-lvl")
+			}
+		}
+	}
+	// every cell of the counter table (7 level rows x 4096 buckets, messages brute-forced onto each
+	// bucket): two pre-epoch windows five ticks apart, then one after the epoch with a second entry
+	// (N = 1, M = 0: kept, kept, kept, dropped), in chunks of 128 buckets; first and last bucket also
+	// on a second sampler
+	{
+		msgs := c11bucketMsgs()
+		chunk := 128
+		for _, l := range c11levels {
+			for lo := 0; lo < len(msgs); lo += chunk {
+				var ops []c11op
+				for _, t := range []int64{-10 * sec, -5 * sec, 5 * sec, 5*sec + 1} {
+					for j := lo; j < lo+chunk && j < len(msgs); j++ {
+						ops = append(ops, lg(0, l, msgs[j], t))
+					}
+				}
+				c11emitSeq(c, c11cfg{1, 0, sec}, ops, "cells")
+			}
+			ops := []c11op{{kind: 2}}
+			for _, t := range []int64{-10 * sec, -5 * sec, -5*sec + 1, 5 * sec, 5*sec + 1} {
+				for _, j := range []int{0, 1, len(msgs) - 2, len(msgs) - 1} {
+					ops = append(ops, lg(1, l, msgs[j], t), lg(0, l, msgs[j], t))
+				}
+			}
+			c11emitSeq(c, c11cfg{1, 0, sec}, ops, "cells")
+		}
+	}
 	// zero time.Time (UnixNano out of its documented range: the harness ships what it returns)
 	c11emitSeq(c, c11cfg{2, 2, sec}, rep(9, func(i int) c11op { o := lg(0, 0, "z", 0); o.zeroT = true; return o }), "zerotime")
 	// equal and decreasing stamps
@@ -496,18 +573,17 @@ func c11directed(c *Ctx, coll [][]string) {
 }
 
 // every sequence of stamps from {0..3} (tick = 2) of length <= K on one key, N, M in 0..2
-func c11exhaustive(c *Ctx, K int) {
+// lvl, off: the level row and an offset added to every stamp (off = -4: all stamps before the epoch)
+func c11exhaustive(c *Ctx, K int, lvl int8, off int64, nms [][2]int, class string) {
 	var rec func(prefix []int64)
 	rec = func(prefix []int64) {
 		if len(prefix) > 0 {
-			for n := 0; n <= 2; n++ {
-				for m := 0; m <= 2; m++ {
-					ops := make([]c11op, len(prefix))
-					for i, t := range prefix {
-						ops[i] = lg(0, 0, "e", t)
-					}
-					c11emitSeq(c, c11cfg{n, m, 2}, ops, "exh")
+			for _, nm := range nms {
+				ops := make([]c11op, len(prefix))
+				for i, t := range prefix {
+					ops[i] = lg(0, lvl, "e", t+off)
 				}
+				c11emitSeq(c, c11cfg{nm[0], nm[1], 2}, ops, class)
 			}
 		}
 		if len(prefix) < K {
@@ -535,9 +611,17 @@ func c11random(c *Ctx, r *RNG, coll [][]string, maxOps int) {
 			"a\xc3\xa9", "a\xc3\xa8", "\xf0\x9f\x98\x80", "\xf0\x9f\x98\x81", "\xff\xfe", "\xff\xfd", "a"}
 	}
 	npool := r.Range(2, len(pool))
-	lvls := []int8{-1, 0, 1, 2, 3, 4, 5}
+	// 1..3 distinct level rows drawn from all seven (Debug .. Fatal)
+	lvls := append([]int8(nil), c11levels...)
+	for i := len(lvls) - 1; i > 0; i-- {
+		j := r.Intn(i + 1)
+		lvls[i], lvls[j] = lvls[j], lvls[i]
+	}
 	nl := r.Range(1, 3)
-	base := []int64{0, int64(1700000000) * int64(time.Second), -50 * tick, 12345}[r.Intn(4)]
+	// where the history starts: at / after the epoch, or before it (a few ticks, 50 ticks, decades,
+	// near the lower end of UnixNano's range) so that windows open before, across and after stamp 0
+	base := []int64{0, int64(1700000000) * int64(time.Second), -50 * tick, 12345,
+		-int64(1700000000) * int64(time.Second), -3*tick - 1, -tick, -(1 << 62)}[r.Intn(8)]
 	ends := map[string]int64{} // generation bias only: where this key's window is believed to end
 	t := base
 	ncores := 1
@@ -634,6 +718,9 @@ func c11randomConc(c *Ctx, r *RNG, coll [][]string, maxBatch int) {
 	cfg := c11cfg{r.Intn(30), r.Intn(8), hour}
 	g := coll[r.Intn(len(coll))]
 	T := int64(1700000000) * int64(time.Second)
+	if r.Chance(35) { // the open window lies before the epoch, or across it
+		T = []int64{-T, -hour / 2, -3 * hour}[r.Intn(3)]
+	}
 	pre := []c11op{{kind: 1, parent: 0}, {kind: 1, parent: 1}, {kind: 2}}
 	lvl := int8(r.Intn(7)) - 1
 	for i, k := 0, r.Range(1, 5); i < k; i++ { // opens the window at T and uses a little of the budget
@@ -668,7 +755,22 @@ func c11(c *Ctx) {
 	if c.Thorough {
 		K, N, NC, NCONC, maxOps, maxBatch = 6, 30000, 3000, 400, 200, 8000
 	}
-	c11exhaustive(c, K)
+	var nms [][2]int
+	for n := 0; n <= 2; n++ {
+		for m := 0; m <= 2; m++ {
+			nms = append(nms, [2]int{n, m})
+		}
+	}
+	c11exhaustive(c, K, 0, 0, nms, "exh")
+	// every level row, all stamps before the epoch ({-4..-1}) and across it ({-2..1}), length <= 3 (quick) / 4
+	KL := 3
+	if c.Thorough {
+		KL = 4
+	}
+	for _, l := range c11levels {
+		c11exhaustive(c, KL, l, -4, [][2]int{{0, 0}, {1, 0}, {0, 2}, {1, 2}}, "exh-lvl")
+		c11exhaustive(c, KL, l, -2, [][2]int{{1, 0}, {1, 2}}, "exh-lvl")
+	}
 	for i := 0; i < N; i++ {
 		c11random(c, r, coll, maxOps)
 	}
